@@ -272,6 +272,10 @@ DEF_VIOLATIONS = [
     ("duplicate-step-name", lambda: [{"kind": "protocol", "name": "ZzProt", "steps": [("a", P("int32"), False), ("a", P("string"), True)]}]),
     ("badly-cased-step-name", lambda: [{"kind": "protocol", "name": "ZzProt", "steps": [("Bad_Step", P("int32"), False)]}]),
     ("unused-type-parameter", lambda: [{"kind": "record", "name": "ZzRec", "tparams": ["T"], "fields": [("a", P("int32"))]}]),
+    # one name declared twice: every use resolves to the later declaration, the earlier one can never be used (and the targets have no two parameters of one name)
+    ("repeated-type-parameter-in-record", lambda: [{"kind": "record", "name": "ZzPair", "tparams": ["T", "T"], "fields": [("a", ("tparam", "T")), ("b", ("tparam", "T"))]}]),
+    ("repeated-type-parameter-in-alias", lambda: [{"kind": "alias", "name": "ZzLookup", "tparams": ["K", "K"], "type": ("map", ("tparam", "K"), P("int32"))}]),
+    ("repeated-type-parameter-among-three", lambda: [{"kind": "record", "name": "ZzTri", "tparams": ["A", "B", "A"], "fields": [("a", ("tparam", "A")), ("b", ("tparam", "B"))]}]),
     ("badly-cased-type-parameter", lambda: [{"kind": "record", "name": "ZzRec", "tparams": ["t"], "fields": [("a", ("tparam", "t"))]}]),
     ("wrong-generic-arity", lambda: [{"kind": "record", "name": "ZzG", "tparams": ["T"], "fields": [("a", ("tparam", "T"))]},
                                      {"kind": "record", "name": "ZzUse", "tparams": [], "fields": [("x", ("named", "ZzG", [P("int32"), P("int32")]))]}]),
